@@ -35,6 +35,10 @@ func rx1dr(b band.Band, dr, off int) string {
 }
 
 func main() {
+	if len(os.Args) > 1 && os.Args[1] == "--order-child" {
+		orderChildMain()
+		return
+	}
 	dir, seed, thorough := cases.Args()
 	r := cq.NewRNG(seed)
 	s := cases.New("C12", dir, "LW.Corr.C12",
@@ -42,6 +46,9 @@ func main() {
 			"rejected (error) cells and out-of-range channel indices are the trivial ones; distinct = distinct printed case")
 	s.ShardSize = 1500
 	cfgs := bandcfg.All()
+
+	// construction-order independence (order.go) - first, before anything else configures a band
+	orderIndependence(s)
 	aliasOf := map[band.Name]band.Name{}
 	for a, n := range bandcfg.DeprecatedAliases {
 		aliasOf[n] = a
